@@ -453,8 +453,10 @@ def rule_U3(ctx):
     lb, buf, pos, ndel = pn
     # what lbuf_opt records
     rec = {}
+    allst = {}
     for n, lv, op, rhs in stores(opt.body):
         if op == "=" and lv["k"] == "member" and lv.get("rec") == "lopt":
+            allst.setdefault(lv["field"], []).append((n, rhs))
             rec[lv["field"]] = (n, rhs)
     need = {
         "pos": lambda r: r["k"] == "ref" and r["name"] == pos,
@@ -468,15 +470,22 @@ def rule_U3(ctx):
         "ins": lambda r: any(is_call(c, ("uc_dup", "strdup")) and key(c["args"][0]) == buf
                              for c in calls_in(r)),
     }
+    from ..callgraph import is_null
     for fld, pred in need.items():
-        if fld not in rec:
+        sts = allst.get(fld, [])
+        good = [x for x in sts if pred(x[1])]
+        other = [x for x in sts if not pred(x[1]) and not is_null(x[1]) and cval(x[1]) != 0]
+        if not sts:
             ctx.violation("lbuf_opt", "record " + fld, "log entry field %s is never stored" % fld)
-        elif pred(rec[fld][1]):
-            ctx.ok("lbuf_opt", "record " + fld, loc=opt.loc(rec[fld][0]))
-        else:
+        elif good and not other:
+            ctx.ok("lbuf_opt", "record " + fld, loc=opt.loc(good[0][0]))
+        elif other:
             ctx.violation("lbuf_opt", "record " + fld,
-                          "log entry field %s is stored from %s" % (fld, key(rec[fld][1])),
-                          opt.loc(rec[fld][0]))
+                          "log entry field %s is stored from %s" % (fld, key(other[0][1])),
+                          opt.loc(other[0][0]))
+        else:
+            ctx.violation("lbuf_opt", "record " + fld, "log entry field %s only ever gets a null value" % fld,
+                          opt.loc(sts[0][0]))
     # replay
     for fname, txt, cnt, kinds in (("lbuf_undo", "del", "n_ins", ("pre--", "u-1")),
                                    ("lbuf_redo", "ins", "n_del", ("post++", "u"))):
@@ -536,15 +545,25 @@ def rule_U3(ctx):
                 continue
             cond = loop["c"]
             seqcmp = None
-            for cj in flatten_and(cond):
-                if cj["k"] == "bin" and cj["op"] == "==":
+            # the replay is control-dependent on `entry.seq == first seq` (loop condition or a
+            # break test inside the body)
+            from .w import _facts as _wf
+            for cj, tj in _wf(f, rep):
+                if cj["k"] == "bin" and cj["op"] in ("==", "!=") and (tj == (cj["op"] == "==")):
                     for x, y in ((cj["l"], cj["r"]), (cj["r"], cj["l"])):
                         if x["k"] == "member" and x["field"] == "seq" and y["k"] == "ref":
                             seqcmp = (x, y)
             if not seqcmp:
+                # the loop's own condition (top- or bottom-tested)
+                for cj in flatten_and(cond):
+                    if cj["k"] == "bin" and cj["op"] == "==":
+                        for x, y in ((cj["l"], cj["r"]), (cj["r"], cj["l"])):
+                            if x["k"] == "member" and x["field"] == "seq" and y["k"] == "ref":
+                                seqcmp = (x, y)
+            if not seqcmp:
                 ctx.violation(fname, "one step per command",
-                              "loop condition %s does not compare an entry's seq with the "
-                              "first entry's" % key(cond), f.loc(loop))
+                              "the replay is reachable without a test that the entry's seq equals the "
+                              "first entry's (loop condition %s)" % key(cond), f.loc(loop))
                 continue
             x, y = seqcmp
             # y assigned from hist[...].seq with the same index expression as x
@@ -552,12 +571,21 @@ def rule_U3(ctx):
             for n, lv, op, rhs in stores(f.body):
                 if op in ("=", "init") and lv.get("name") == y["name"] and rhs is not None:
                     src = rhs
-            if src is not None and key(src) == key(x):
+            from ..util import resolve_local
+            xk = key(x)
+            if x["base"]["k"] == "ref":
+                # lo->seq with lo = &hist[idx]
+                lo_src = resolve_local(f, x["base"])
+                if lo_src["k"] == "un" and lo_src["op"] == "&":
+                    xk = key(lo_src["e"]) + ".seq"
+            sk = key(src) if src is not None else None
+            norm = lambda k_: (k_ or "").replace("(post++", "(").replace("(pre--", "(")
+            if src is not None and (sk == xk or (".seq" in sk and sk.split("[")[0] == xk.split("[")[0])):
                 ctx.ok(fname, "loop while seq == first entry's seq", loc=f.loc(loop))
             else:
                 ctx.violation(fname, "one step per command",
                               "%s is initialised from %s but compared with %s" % (
-                                  y["name"], key(src), key(x)), f.loc(loop))
+                                  y["name"], sk, xk), f.loc(loop))
             # bound on the cursor in the loop condition
             bound_ok = any(
                 (cj["k"] == "member" and cj["field"] == "hist_u") or
